@@ -5,6 +5,10 @@ cd "$(dirname "$0")"
 if ! /venv/bin/python -c "import hypothesis" 2>/dev/null; then
   /venv/bin/pip install --no-index --find-links /opt/veriftools/wheels hypothesis
 fi
+# atheris (coverage-guided fuzzing, C10 ns_fuzz family): cp312 wheel into .deps
+if [ ! -d .deps/atheris ]; then
+  /venv/bin/pip install -q --no-index --find-links /opt/veriftools/wheels --target .deps atheris || echo "atheris not installable: ns_fuzz family will report inconclusive"
+fi
 mkdir -p evidence replays
 /venv/bin/python - <<'PY'
 import sys
